@@ -8,7 +8,7 @@ META = {
     "technique": "TLC model checking of NsqdMeta (persist protocol step by step, notify goroutines, HTTP handlers, Kill "
                  "enabled everywhere); a real nsqd binary as child process killed (SIGKILL) at every named point of the "
                  "write/delete protocol (k-th occurrence), at idle and at random instants during churn, with a concurrent "
-                 "reader of nsqd.dat, then restarted and compared with the documents it had passed through; NsqdPauseAck (simultaneous "
+                 "reader of nsqd.dat, then restarted (a failed start attempt in between, further kill / restart cycles after) and compared with the documents it had passed through; graceful exits with creations under way; NsqdPauseAck (simultaneous "
                  "identical pause requests) and NsqdDataLock (lock hand-over between daemons) model-checked with one refuted "
                  "shortcut each and bound by concurrent twin requests and a SIGTERM hand-over scenario on the real binary",
     "design_ref": "5/C06",
